@@ -257,11 +257,20 @@ func (b AcraBlock) EncryptedDataEncryptionKeyLength() int {
 
 // Decrypt AcraBlock using all keys sequentially until successful decryption and context
 func (b AcraBlock) Decrypt(keys [][]byte, context []byte) ([]byte, error) {
+	if len(b) < AcraBlockMinSize {
+		return nil, ErrInvalidAcraBlock
+	}
 	keySize := b.EncryptedDataEncryptionKeyLength()
+	if len(b) < AcraBlockMinSize+keySize {
+		return nil, ErrInvalidAcraBlock
+	}
 	encryptedKey := b[EncryptedDataEncryptionKeyPosition : EncryptedDataEncryptionKeyPosition+keySize]
 	encryptedData := b[AcraBlockMinSize+keySize:]
 	keyEncryptionKeyBackend := b.KeyEncryptionBackend()
 	dataEncryptionBackend := b.DataEncryptionBackend()
+	if keyEncryptionKeyBackend == nil || dataEncryptionBackend == nil {
+		return nil, ErrInvalidAcraBlock
+	}
 	blockKeyID, err := b.getKeyEncryptionKeyID()
 	if err != nil {
 		return nil, err
@@ -307,7 +316,9 @@ func ExtractAcraBlockFromData(data []byte) (int, AcraBlock, error) {
 		validMask <<= 1
 	}
 	restLength := binary.LittleEndian.Uint64(data[RestAcraBlockLengthPosition : RestAcraBlockLengthPosition+RestAcraBlockLengthSize])
-	if len(data) >= int(restLength+TagBeginSize) {
+	// restLength counts everything after the tag: it has to cover the fixed header
+	// and must not point past the data (compared as uint64, so it can't wrap or go negative)
+	if restLength >= AcraBlockMinSize-TagBeginSize && restLength <= uint64(len(data)-TagBeginSize) {
 		validMask <<= 1
 	}
 	_, ok := keyEncryptionBackendTypeMap[KeyEncryptionBackendType(data[KeyEncryptionKeyTypePosition])]
